@@ -26,7 +26,7 @@ from typing import Any
 
 from detsim import env, gen, minimize, parseop, rng, runner, simfs
 from detsim.observe import exc_token, hashes, observe_chart
-from detsim.sched import HarnessError, Scheduler, make_abort_exc
+from detsim.sched import HarnessError, Scheduler, SimDeadlock, make_abort_exc
 
 PROP = "C17"
 LEVEL = "exploration"
@@ -825,6 +825,10 @@ def execute(plan: dict[str, Any]) -> dict[str, Any]:
 
     try:
         sched.run([body_for(i) for i in range(n_clients)])
+    except SimDeadlock as e:
+        # threads and locks the library made itself, every one of them scheduled by the simulator:
+        # under this schedule an operation never returns, under the reference's it does
+        vio("deadlock", f"{e} (the same operations complete in a fresh process)")
     except HarnessError as e:
         harness_error = str(e)
     finally:
